@@ -4,6 +4,8 @@ import SLModel.Lemmas.ISort
 # Lemmas/Suggest — the scan loop is "take the first `cap` qualifying entries", the merge map
 is characterised by per-term sums, and the model's insertion sort is `SL.ISort.isort`.
 -/
+set_option linter.unusedSectionVars false
+set_option linter.unusedSimpArgs false
 namespace SL.Suggest
 
 /-! ### scan = take -/
